@@ -40,7 +40,8 @@ MANIFEST = {
     'technique': ('symbolic extraction of the forward/backward scaling expressions (statement-by-'
                   'statement substitution of closure variables) and formal-inverse / orientation '
                   'check with sympy as a normaliser of closed expressions; return-provenance of the '
-                  'decoder; alias analysis of the label converters; index-walk agreement of map/unmap'),
+                  'decoder; alias analysis of the label converters; index-walk agreement of map/unmap'
+                  '; one-hot widths compared symbolically (sympy); decoder clip checked on the sub-CFG where clipping is on; exact index encoding'),
     'level_text': (
         'Static: each scaler branch is a formal bijection onto [0,1] with the documented '
         'orientation, the one-hot pair uses one spec, the decoder can only return None, a clipped '
